@@ -62,8 +62,12 @@ func FuzzGuidedC03(f *testing.F) { Guided(f, propC03) }
 func FuzzGuidedC04(f *testing.F) { Guided(f, propC04) }
 func FuzzGuidedC05(f *testing.F) { Guided(f, propC05) }
 func FuzzGuidedC10(f *testing.F) { Guided(f, propC10) }
+func FuzzGuidedC11(f *testing.F) { Guided(f, propC11) }
 func FuzzGuidedC12(f *testing.F) { Guided(f, propC12) }
+func FuzzGuidedC13(f *testing.F) { Guided(f, propC13) }
+func FuzzGuidedC14(f *testing.F) { Guided(f, propC14) }
 func FuzzGuidedC15(f *testing.F) { Guided(f, propC15) }
+func FuzzGuidedC16(f *testing.F) { Guided(f, propC16) }
 func FuzzGuidedC17(f *testing.F) { Guided(f, propC17) }
 func FuzzGuidedC18(f *testing.F) { Guided(f, propC18) }
 func FuzzGuidedC19(f *testing.F) { Guided(f, propC19) }
